@@ -206,6 +206,8 @@ def gen_model(seed):
                 "ctxs": [contexts[0]] + ([contexts[1]] if len(contexts) > 1 and r.chance(1, 3) else []),
                 "clone": r.chance(1, 2),
             }
+            # where the Clone vtable sits among the group's vtables (groups order them by name)
+            g["clone_pos"] = r.below(len(members) + 1)
             if g["clone"]:
                 # Clone exists for boxed instances only, and the wrapper of a container-returning
                 # entry is typed for one instantiation: one context per cloneable group (as in the
@@ -278,7 +280,7 @@ def object_types(model):
                 for tn in g["traits"]:
                     vt.append({"trait": tn, "type": mangle((tn + "Vtbl", [t_gcont(g["name"], cont, ctx)])), "field": "vtbl_" + tn.lower(), "funcs": tmap[tn]["funcs"]})
                 if g.get("clone"):
-                    vt.append({"trait": "Clone", "type": mangle(("CloneVtbl", [t_gcont(g["name"], cont, ctx)])), "field": "vtbl_clone", "funcs": [("clone", "ref", [], "struct " + cn)]})
+                    vt.insert(min(g.get("clone_pos", len(vt)), len(vt)), {"trait": "Clone", "type": mangle(("CloneVtbl", [t_gcont(g["name"], cont, ctx)])), "field": "vtbl_clone", "funcs": [("clone", "ref", [], "struct " + cn)]})
                 out.append({"kind": "group", "name": g["name"], "cont": cont, "ctx": ctx, "struct": gn, "container": cn, "vtbls": vt,
                             "ret_tmp": ["ret_tmp_" + tn.lower() for tn in g["traits"] if tmap[tn].get("rettmp_real")]})
     return out
@@ -344,7 +346,7 @@ def render(model):
                 if g.get("clone"):
                     vn = mangle(("CloneVtbl", [t_gcont(G, cont, ctx)]))
                     w(VTBL_DOC % "Clone" + "typedef struct %s {\n    struct %s (*clone)(const struct %s *cont);\n} %s;\n" % (vn, cn, cn, vn))
-                    vfields.append("    const struct %s *vtbl_clone;" % vn)
+                    vfields.insert(min(g.get("clone_pos", len(vfields)), len(vfields)), "    const struct %s *vtbl_clone;" % vn)
                 gn = mangle(t_group(G, cont, ctx))
                 w(GROUP_DOC % " + ".join("%s < >" % tn for tn in g["traits"]) + "typedef struct %s {\n%s\n    struct %s container;\n} %s;\n" % (gn, "\n".join(vfields), cn, gn))
     if model.get("generic_objs") and not model["traits"][0].get("rettmp_real"):
@@ -608,7 +610,7 @@ def render_cpp(model):
         G = g["name"]
         vf = ["    const %sVtbl<%sContainer<CGlueInst, CGlueCtx>> *vtbl_%s;" % (tn, G, tn.lower()) for tn in g["traits"]]
         if g.get("clone"):
-            vf.append("    const CloneVtbl<%sContainer<CGlueInst, CGlueCtx>> *vtbl_clone;" % G)
+            vf.insert(min(g.get("clone_pos", len(vf)), len(vf)), "    const CloneVtbl<%sContainer<CGlueInst, CGlueCtx>> *vtbl_clone;" % G)
         w(GROUP_DOC_CPP % (" + ".join("%s < >" % tn for tn in g["traits"]), G) + "template<typename CGlueInst, typename CGlueCtx>\nstruct %s {\n%s\n    %sContainer<CGlueInst, CGlueCtx> container;\n};\n" % (G, "\n".join(vf), G))
     w(CONT_DOC + "template<typename T, typename C, typename R>\nstruct CGlueObjContainer {\n    T instance;\n    C context;\n    R ret_tmp;\n};\n")
     w(OBJ_DOC + "template<typename T, typename V, typename C, typename R>\nstruct CGlueTraitObj {\n    const V *vtbl;\n    CGlueObjContainer<T, C, R> container;\n};\n")
@@ -631,24 +633,28 @@ def render_cpp(model):
 
 
 def object_types_cpp(model):
-    """Instantiations a C++ user can hold, with their C++ spellings."""
+    """Instantiations a C++ user can hold, with their C++ spellings. The context is the
+    reference-counted one or none at all (`void`: the specialisations the tool generates for it)."""
     m = cpp_model(model)
     out = []
     tmap = {t["name"]: t for t in m["traits"]}
+    ctxs = [("CArc_c_void", "CArc<void>")] + ([("NoContext", "void")] if model.get("no_context") else [])
     for t in m["traits"]:
         T = t["name"]
         for cont in t["conts"]:
-            inst = CPP_CONT[cont]
-            cn = "CGlueObjContainer<%s, CArc<void>, %sRetTmp<CArc<void>>>" % (inst, T)
-            out.append({"kind": "obj", "name": T, "cont": cont, "ctx": "CArc_c_void", "struct": "%sBase<%s, CArc<void>>" % (T, inst), "container": cn,
-                        "vtbls": [{"trait": T, "type": "%sVtbl<%s>" % (T, cn), "field": "vtbl", "funcs": t["funcs"]}], "ret_tmp": ["ret_tmp"] if t.get("rettmp_real") else []})
+            for ctx, cspell in ctxs:
+                inst = CPP_CONT[cont]
+                cn = "CGlueObjContainer<%s, %s, %sRetTmp<%s>>" % (inst, cspell, T, cspell)
+                out.append({"kind": "obj", "name": T, "cont": cont, "ctx": ctx, "struct": "%sBase<%s, %s>" % (T, inst, cspell), "container": cn,
+                            "vtbls": [{"trait": T, "type": "%sVtbl<%s>" % (T, cn), "field": "vtbl", "funcs": t["funcs"]}], "ret_tmp": ["ret_tmp"] if t.get("rettmp_real") else []})
     for g in m["groups"]:
         G = g["name"]
         for cont in g["conts"]:
-            inst = CPP_CONT[cont]
-            cn = "%sContainer<%s, CArc<void>>" % (G, inst)
-            vt = [{"trait": tn, "type": "%sVtbl<%s>" % (tn, cn), "field": "vtbl_" + tn.lower(), "funcs": tmap[tn]["funcs"]} for tn in g["traits"]]
-            if g.get("clone"):
-                vt.append({"trait": "Clone", "type": "CloneVtbl<%s>" % cn, "field": "vtbl_clone", "funcs": [("clone", "ref", [], cn)]})
-            out.append({"kind": "group", "name": G, "cont": cont, "ctx": "CArc_c_void", "struct": "%s<%s, CArc<void>>" % (G, inst), "container": cn, "vtbls": vt, "ret_tmp": []})
+            for ctx, cspell in ctxs:
+                inst = CPP_CONT[cont]
+                cn = "%sContainer<%s, %s>" % (G, inst, cspell)
+                vt = [{"trait": tn, "type": "%sVtbl<%s>" % (tn, cn), "field": "vtbl_" + tn.lower(), "funcs": tmap[tn]["funcs"]} for tn in g["traits"]]
+                if g.get("clone"):
+                    vt.insert(min(g.get("clone_pos", len(vt)), len(vt)), {"trait": "Clone", "type": "CloneVtbl<%s>" % cn, "field": "vtbl_clone", "funcs": [("clone", "ref", [], cn)]})
+                out.append({"kind": "group", "name": G, "cont": cont, "ctx": ctx, "struct": "%s<%s, %s>" % (G, inst, cspell), "container": cn, "vtbls": vt, "ret_tmp": []})
     return out
